@@ -31,7 +31,9 @@ class C19(Check):
             "convert-chunks and scale-stats, with seeded repetitions of the "
             "data-writing steps) and, in the equivalence class, the "
             "all-in-one command with the same options; each command is a "
-            "simulated process (exit handlers run) on a shared SimFS; "
+            "simulated process (exit handlers run; in thorough one "
+            "data-writing command may be killed before them) on a shared "
+            "SimFS; "
             "distinct = distinct reach signature (class, volume dtype, "
             "scaling, encoding, type, method, layout/sharding, #scales, "
             "repeats, outcome); non-trivial = at least one dataset decoded "
